@@ -70,6 +70,10 @@ def classify(v):
             e = v.get("err", "")
             if "error reading metadata file" in e and (v["nometa_day"] or v.get("nometa_seen")):
                 why = "nometa"
+            elif v.get("renames_during", 0) >= 2:
+                # the engine's readers retry a vanished path exactly once: two renames of the day directory during
+                # one query defeat that (same root cause as the GPDir reader's rename-race)
+                why = "rename-race"
             elif "error reading metadata file" in e:
                 why = "metadata-enoent"
             else:
@@ -79,6 +83,8 @@ def classify(v):
         if why == "rename-race":
             return {"kind": "rename-race", "reader": v["kind"]}
         return {"kind": "reader-error", "why": why, "reader": v["kind"]}
+    if v["kind"] != "gpdir" and v.get("renames_during", 0) >= 2 and v["intact"]:
+        return {"kind": "rename-race", "reader": v["kind"]}      # a block skipped because its column file vanished twice
     return {"kind": "snapshot" if not v["snapshot"] else "damaged", "reader": v["kind"]}
 
 
